@@ -443,17 +443,24 @@ pub fn wide_container_docs(emit: &mut dyn FnMut(&str)) {
     ];
     for (_, first, cont, tail_prefix) in containers {
         for n in 1..=5usize {
-            for variant in ["plain", "code", "heading", "quote"] {
+            for variant in ["plain", "code", "heading", "quote", "heading-first", "code-first"] {
                 for tail in 0..=2usize {
+                  for tight in [false, true] {
                     if variant != "plain" && n < 2 {
+                        continue;
+                    }
+                    // tight: no blank lines between the children (text directly under a heading or a
+                    // code block of a tight item is a block of its own; paragraphs join)
+                    if tight && (n < 2 || tail > 0) {
                         continue;
                     }
                     let mut s = String::new();
                     for i in 0..n {
                         let lead = if i == 0 { first.to_string() } else { cont.to_string() };
                         let blank = cont.trim_end().to_string();
-                        let special = variant != "plain" && i == 1;
-                        if i > 0 {
+                        let special = (variant == "code" || variant == "heading" || variant == "quote") && i == 1 || (variant == "heading-first" || variant == "code-first") && i == 0;
+                        let variant = variant.trim_end_matches("-first");
+                        if i > 0 && !tight {
                             s.push_str(&format!("{}\n", blank));
                         }
                         if special && variant == "code" {
@@ -471,9 +478,81 @@ pub fn wide_container_docs(emit: &mut dyn FnMut(&str)) {
                         s.push_str(&format!("{}\n{}tail{}\n", blank, tail_prefix, t));
                     }
                     emit(&s);
+                  }
                 }
             }
         }
+    }
+}
+
+/// runs of 2..=4 adjacent blocks of the same kind (the forests stop before three lists in a row):
+/// bullet lists with alternating source markers, ordered lists with alternating delimiters, quotes,
+/// code blocks, rules, tables, headings of one level - at the top, inside a list item and inside a
+/// quote; for lists also with items whose first block is a rule, a code block or a heading
+pub fn sibling_run_docs(emit: &mut dyn FnMut(&str)) {
+    let kinds = ["bullets", "ordered", "quotes", "codes", "rules", "tables", "headings", "bullets-rule-first", "bullets-code-first", "bullets-heading-first", "ordered-rule-first"];
+    for kind in kinds {
+        for n in 2..=4usize {
+            for two_items in [false, true] {
+                if two_items && !(kind.starts_with("bullets") || kind.starts_with("ordered")) {
+                    continue;
+                }
+                let mut blocks: Vec<String> = vec![];
+                for i in 0..n {
+                    let bullet = ["-", "*", "+"][i % 3];
+                    let delim = [".", ")"][i % 2];
+                    let second = |m: &str, pad: &str| if two_items { format!("{} second{}\n", m, i) + pad } else { String::new() };
+                    let b = match kind {
+                        "bullets" => format!("{} item{}\n{}", bullet, i, second(bullet, "")),
+                        "ordered" => format!("1{} item{}\n{}", delim, i, second(&format!("2{}", delim), "")),
+                        "quotes" => format!("> quote{}\n", i),
+                        "codes" => format!("```\ncode{}\n```\n", i),
+                        "rules" => "---\n".to_string(),
+                        "tables" => format!("| h{} |\n|---|\n| c{} |\n", i, i),
+                        "headings" => format!("## head{}\n", i),
+                        "bullets-rule-first" => format!("{} ---\n{}", if bullet == "-" { "*" } else { bullet }, second(bullet, "")),
+                        "bullets-code-first" => format!("{} ```\n  code{}\n  ```\n{}", bullet, i, second(bullet, "")),
+                        "bullets-heading-first" => format!("{} # head{}\n{}", bullet, i, second(bullet, "")),
+                        _ => format!("1{} ---\n{}", delim, second(&format!("2{}", delim), "")),
+                    };
+                    blocks.push(b);
+                }
+                // quotes, rules, lists of one marker would merge in the source: separate where needed
+                let sep = match kind {
+                    "quotes" => "\n<!-- -->\n\n",
+                    _ => "\n",
+                };
+                let top = blocks.join(sep);
+                emit(&top);
+                // inside a list item (indented by 2) and inside a quote
+                let indent = |t: &str, first: &str, cont: &str| -> String {
+                    t.lines().enumerate().map(|(i, l)| if l.is_empty() { format!("{}\n", cont.trim_end()) } else { format!("{}{}\n", if i == 0 { first } else { cont }, l) }).collect()
+                };
+                emit(&format!("- lead\n\n{}", indent(&top, "  ", "  ")));
+                emit(&indent(&top, "> ", "> "));
+            }
+        }
+    }
+}
+
+/// link destinations over every alignment of multi-byte characters within the first 16 bytes
+/// (0..=3 ASCII characters, then 1..=6 two-, three- or four-byte characters), as an inline link,
+/// a link alone in its paragraph, a wiki-link and a piped wiki-link
+pub fn destination_docs(emit: &mut dyn FnMut(&str)) {
+    for prefix in ["", "a", "ab", "abc"] {
+        for ch in ["é", "日", "😀", "я"] {
+            for k in 1..=6usize {
+                let d = format!("{}{}", prefix, ch.repeat(k));
+                emit(&format!("see [x]({}) here\n", d));
+                emit(&format!("[x]({})\n", d));
+                emit(&format!("[[{}]]\n", d));
+                emit(&format!("- [[{}|t]]\n", d));
+            }
+        }
+    }
+    // a directory part, an extension, a fragment
+    for d in ["dir/éé", "éé/x", "ééé.md", "x#éé", "ééé#x", "é é", "%C3%A9"] {
+        emit(&format!("see [x]({}) here\n\n[x]({})\n", d, d));
     }
 }
 
@@ -489,12 +568,16 @@ pub fn doc_space(tier: Tier, emit: &mut dyn FnMut(&str)) {
             block_docs(3, 2, 2, true, emit);
             inline_docs(1, false, emit);
             wide_container_docs(emit);
+            sibling_run_docs(emit);
+            destination_docs(emit);
         }
         Tier::Thorough => {
             token_strings(4, emit);
             block_docs(4, 3, 3, true, emit);
             inline_docs(2, true, emit);
             wide_container_docs(emit);
+            sibling_run_docs(emit);
+            destination_docs(emit);
         }
     }
 }
